@@ -71,6 +71,17 @@ type Op struct {
 	StallLock    int    `json:"stall_lock_ms,omitempty"`
 	StallTimeout int    `json:"stall_timeout_ms,omitempty"`
 	Overlap      bool   `json:"overlap,omitempty"` // the next operation starts while the response is still held
+	// During (renew only): while the renewal is in flight an ordinary request
+	// with its own timeout / context is issued; the server answers it at once.
+	During *During `json:"request_during_renewal,omitempty"`
+}
+
+// During is an ordinary request issued AfterMs after a renewal has started.
+type During struct {
+	AfterMs int    `json:"after_ms"`
+	TMs     int    `json:"t_ms"`
+	Ctx     string `json:"ctx"` // none | deadline
+	CtxMs   int    `json:"ctx_ms,omitempty"`
 }
 
 type Case struct {
@@ -147,6 +158,21 @@ func genCase(t *rapid.T) Case {
 		o.StallPop = rapid.SampledFrom(stallValues).Draw(t, "stallPop")
 		if o.Kind == "renew" {
 			o.StallLock = rapid.SampledFrom(stallValues).Draw(t, "stallLock")
+			if rapid.Bool().Draw(t, "during") {
+				d := &During{AfterMs: rapid.SampledFrom([]int{5, 20, 50}).Draw(t, "duringAfter"), TMs: rapid.SampledFrom([]int{100, 150, 200}).Draw(t, "duringT"), Ctx: "none"}
+				if rapid.Bool().Draw(t, "duringCtx") {
+					d.Ctx, d.CtxMs = "deadline", rapid.IntRange(20, 150).Draw(t, "duringCtxMs")
+				}
+				o.During = d
+				// a long channel timeout: only then does waiting for the renewal
+				// exceed the 1 s slack of the request's own bound
+				if rapid.Bool().Draw(t, "longChanT") {
+					c.ChanTMs = rapid.SampledFrom([]int{2000, 3000}).Draw(t, "chanTLong")
+					if o.DMs >= 0 {
+						o.DMs = rapid.SampledFrom([]int{1500, c.ChanTMs + 250 - 10, -1}).Draw(t, "dLong")
+					}
+				}
+			}
 		}
 		o.StallTimeout = rapid.SampledFrom(stallValues).Draw(t, "stallTimeout")
 		c.Ops = append(c.Ops, o)
@@ -580,6 +606,29 @@ func execute(c Case) (o outcome) {
 				got, r.err = f.send(ctx, tag, T)
 			}
 		}()
+		// a request issued while the renewal is in flight
+		type duringRes struct {
+			dur   time.Duration
+			err   error
+			worst time.Duration
+		}
+		var dres chan duringRes
+		if op.Kind == "renew" && op.During != nil {
+			dres = make(chan duringRes, 1)
+			d := *op.During
+			go func() {
+				time.Sleep(time.Duration(d.AfterMs) * time.Millisecond)
+				dctx, dcancel := context.Background(), context.CancelFunc(func() {})
+				if d.Ctx == "deadline" {
+					dctx, dcancel = context.WithTimeout(context.Background(), time.Duration(d.CtxMs)*time.Millisecond)
+				}
+				defer dcancel()
+				dhb := starve.Begin()
+				t0 := time.Now()
+				_, err := f.send(dctx, fmt.Sprintf("c19:op%d-during", i), time.Duration(d.TMs)*time.Millisecond)
+				dres <- duringRes{time.Since(t0), err, dhb.Settle()}
+			}()
+		}
 		hung := false
 		select {
 		case <-done:
@@ -639,6 +688,30 @@ func execute(c Case) (o outcome) {
 		if r.dur > bound {
 			o.Fail = fmt.Sprintf("%s: the call returned after %v (err=%v), bound %v (worst wake-up overshoot of the harness during the call: %v)", name, r.dur.Round(time.Millisecond), r.err, bound, worst.Round(time.Millisecond))
 			return
+		}
+		// ---- a request issued during the renewal is bound by its OWN timeout and context
+		if dres != nil {
+			var dr duringRes
+			select {
+			case dr = <-dres:
+			case <-time.After(30 * time.Second):
+				o.Fail = fmt.Sprintf("%s: a request issued %d ms after the renewal started (timeout %d ms, ctx %s/%d ms) did not return within 30 s\ngoroutines inside uasc:\n%s", name, op.During.AfterMs, op.During.TMs, op.During.Ctx, op.During.CtxMs, gopcuaStacks())
+				return
+			}
+			cls["during-renewal:request-issued"] = true
+			dsl := slack
+			if 10*dr.worst > dsl {
+				dsl = 10 * dr.worst
+			}
+			dbound := time.Duration(op.During.TMs)*time.Millisecond + leniency + dsl
+			if op.During.Ctx == "deadline" && time.Duration(op.During.CtxMs)*time.Millisecond+dsl < dbound {
+				dbound = time.Duration(op.During.CtxMs)*time.Millisecond + dsl
+			}
+			if dr.dur > dbound {
+				o.Fail = fmt.Sprintf("%s: a request issued %d ms after the renewal started, with timeout %d ms and ctx %s/%d ms, returned only after %v (err=%v), bound %v: it waited for the renewal (whose response was held for %d ms, channel timeout %v) instead of its own timeout / context", name, op.During.AfterMs, op.During.TMs, op.During.Ctx, op.During.CtxMs, dr.dur.Round(time.Millisecond), dr.err, dbound, op.DMs, T)
+				return
+			}
+			after = f.sc.VerifPendingHandlers()
 		}
 		// ---- pending slot released
 		if after != before {
